@@ -193,7 +193,12 @@ class VIter:
                 ks = self.rt.k_options
             for k in ks:
                 fins.append(('FIN', i, k))
-        if self.O:
+        if self.rt.scn.get('eager_pull') and can_pull and not self.O:
+            # alternative default policy: the task handler thread runs ahead
+            # of the workers as far as the queue bound allows
+            ev.append(('PULL', ))
+            ev.extend(fins)
+        elif self.O:
             ev.append(('DEL', ))
             ev.extend(fins)
             if can_pull:
